@@ -117,3 +117,12 @@ Definition ti_tall_row_ok (a : list (list Q)) (ns : nat) (p : list Q * list Q) :
 Definition ti_tall_ok (t : tableau) : bool :=
   Nat.eqb (length (ti_coeff t)) (length (t_b t)) &&
   forallb (ti_tall_row_ok (t_a t) (t_stage t)) (combine (t_b t) (ti_coeff t)).
+
+(* ---- quadrature conditions in terms of the stored nodes c (what a time-dependent Hamiltonian is sampled
+   at): sum_i b_i c_i^(k-1) = 1/k for k <= advertised order (the bushy-tree conditions with the row sums
+   replaced by the node list itself, so a wrong c_i is seen even if the matrix row is right)          *)
+Fixpoint qpow (c : Q) (n : nat) : Q := match n with O => 1 | S n' => qm c (qpow c n') end.
+Definition quad_row_ok (c : list Q) (r : list Q * nat) : bool :=
+  forallb (fun k => Qeq_bool (dotq (fst r) (map (fun x => qpow x (k - 1)) c) * inject_Z (Z.of_nat k)) 1)
+          (seq 1 (snd r)).
+Definition quad_ok (t : tableau) : bool := forallb (quad_row_ok (t_c t)) (rows t).
